@@ -670,6 +670,11 @@ func writeEvidence(res *result, wall time.Duration, nviol int, known map[int][]v
 		kf = append(kf, map[string]interface{}{"signature": findings[i].Signature, "occurrences": len(vs), "example_case": vs[0].ID})
 	}
 	cov["known_findings_observed"] = kf
+	sigCount := map[string]int{}
+	for _, v := range res.viols {
+		sigCount[v.Sig]++
+	}
+	cov["violation_signatures"] = sigCount
 	if res.samples == nil {
 		cov["samples"] = []interface{}{}
 	}
